@@ -10,6 +10,7 @@ import (
 	"regexp"
 	"strconv"
 	"strings"
+	"sync"
 	"testing"
 
 	"github.com/elliotchance/gedcom/v39"
@@ -595,6 +596,40 @@ func check(c queryCase) (fl *harness.Failure, nontrivial bool) {
 			return harness.Failf("query-changes-document", "after evaluating %q on a document, %q gives %v on it and %v on a fresh copy (%v)", query, probe, gotP, wantP, errp), false
 		}
 	}
+	// several callers at once on a document whose caches are cold: each evaluation is "the
+	// same query on the same document" and gives the same result
+	if len(c.Doc.Text())%6 == 1 {
+		cold := c.Doc.Doc()
+		const callers = 8
+		outs := make([]string, callers)
+		start := make(chan struct{})
+		var wg sync.WaitGroup
+		for k := 0; k < callers; k++ {
+			wg.Add(1)
+			go func(k int) {
+				defer wg.Done()
+				defer func() {
+					if p := recover(); p != nil {
+						outs[k] = fmt.Sprintf("panic: %v", p)
+					}
+				}()
+				<-start
+				v, err := runEngine(query, cold)
+				if err != nil {
+					outs[k] = "error: " + err.Error()
+					return
+				}
+				_, outs[k], _ = normalise(v)
+			}(k)
+		}
+		close(start)
+		wg.Wait()
+		for k := 0; k < callers; k++ {
+			if outs[k] != gs {
+				return harness.Failf("parallel-evaluation-differs", "query %q evaluated by %d callers at the same time on one freshly decoded document: caller %d gets %s, a single caller gets %s\nfile:\n%s", query, callers, k, trunc(outs[k]), trunc(gs), c.Doc.Text()), false
+			}
+		}
+	}
 	// a document with a history is a document like any other: queried, edited through the
 	// public API, queried again - the result is that of the same text decoded from nothing
 	if len(c.Edits) > 0 {
@@ -614,9 +649,11 @@ func check(c queryCase) (fl *harness.Failure, nontrivial bool) {
 			if derr == nil {
 				a, errA := runEngine(query, live)
 				b, errB := runEngine(query, fresh)
-				_, sa, _ := normalise(a)
-				_, sb, _ := normalise(b)
-				if (errA == nil) != (errB == nil) || (errA == nil && sa != sb) {
+				na, sa, _ := normalise(a)
+				nb, sb, _ := normalise(b)
+				// sameJSON, not the strings: a node whose last child was deleted holds an
+				// empty list where a decoded one holds none, and the Go API shows the same
+				if (errA == nil) != (errB == nil) || (errA == nil && !sameJSON(na, nb)) {
 					return harness.Failf("edited-document-result-differs", "query %q after %v through the public API gives %s (%v); on the same text decoded from nothing it gives %s (%v)\ntext now:\n%s", query, c.Edits, trunc(sa), errA, trunc(sb), errB, live.String()), false
 				}
 			}
